@@ -22,23 +22,37 @@ Definition ref_class (w : world) (k : ckind) (V : ver) : option cls :=
   end.
 Definition ref_type (k : ckind) : ustring := match k with CObject => u "identity" | _ => u "file" end.
 
+(* which `confidence` a world's reference 2.1 object class has *)
+Definition bvar_of_world (w : world) : option bvar :=
+  match ref_class w CObject V21 with
+  | Some c => match find_slot c (u "confidence") with
+              | Some s => match skind s with
+                          | KInt None None => Some {| b_conf_range := false |}
+                          | KInt (Some 0%Z) (Some 100%Z) => Some {| b_conf_range := true |}
+                          | _ => None
+                          end
+              | None => None
+              end
+  | None => None
+  end.
+
 (* every standard slot of a custom type NAMED LIKE the reference type is a slot of the reference class *)
 Definition standard_in (w : world) (k : ckind) (V : ver) : Prop :=
-  exists c, ref_class w k V = Some c /\
-            map (fun s => find_slot c (sname s)) (standard_slots k V (ref_type k) None)
-            = map Some (standard_slots k V (ref_type k) None).
+  exists bv c, bvar_of_world w = Some bv /\ ref_class w k V = Some c /\
+            map (fun s => find_slot c (sname s)) (standard_slots bv k V (ref_type k) None)
+            = map Some (standard_slots bv k V (ref_type k) None).
 
 Lemma standard_in_spec_lemma : forall k V, (k = CObject \/ k = CObservable) -> standard_in spec k V.
-Proof. intros k V [-> | ->]; destruct V; eexists; split; vm_compute; reflexivity. Qed.
+Proof. intros k V [-> | ->]; destruct V; (eexists; eexists; split; [vm_compute; reflexivity | split; vm_compute; reflexivity]). Qed.
 
 Lemma standard_in_lib_lemma : forall k V, (k = CObject \/ k = CObservable) -> standard_in lib k V.
-Proof. intros k V [-> | ->]; destruct V; eexists; split; vm_compute; reflexivity. Qed.
+Proof. intros k V [-> | ->]; destruct V; (eexists; eexists; split; [vm_compute; reflexivity | split; vm_compute; reflexivity]). Qed.
 
 (* the type name enters the standard slots only through `type` and `id`, uniformly *)
-Lemma standard_slots_name_lemma : forall k V n xt s, In s (standard_slots k V n xt) ->
-  s = s_type n \/ (exists V', s = s_id n V') \/ (forall n', In s (standard_slots k V n' xt)).
+Lemma standard_slots_name_lemma : forall bv k V n xt s, In s (standard_slots bv k V n xt) ->
+  s = s_type n \/ (exists V', s = s_id n V') \/ (forall n', In s (standard_slots bv k V n' xt)).
 Proof.
-  intros k V n xt s I.
+  intros bv k V n xt s I.
   destruct k, V; simpl in I; try contradiction; try (destruct xt as [x|]; simpl in I; try contradiction);
     repeat (destruct I as [<- | I];
             [first [left; reflexivity | right; left; eexists; reflexivity | right; right; intros n'; simpl; tauto]|]);
@@ -49,15 +63,17 @@ Qed.
    `world_refines` of the generic C02 theorem, against the (relaxed) specification extended by
    the same class: what the specification says about a custom type is its common properties --
    which by standard_in_spec are the builder's -- plus the properties the user declared *)
-Lemma extended_world_refines_lemma : forall k V n xt user cn,
+Lemma extended_world_refines_lemma : forall bv k V n xt user cn,
   forallb slot_kind_ok user = true ->
   find_class (wclasses spec_relaxed) (custom_cid cn) = None ->
-  world_refines (world_add lib k V n (custom_cls k V n xt user cn))
-                (world_add spec_relaxed k V n (custom_cls k V n xt user cn)) = true.
+  world_refines (world_add lib k V n (custom_cls bv k V n xt user cn))
+                (world_add spec_relaxed k V n (custom_cls bv k V n xt user cn)) = true.
 Proof.
-  intros. apply world_refines_add_lemma; auto.
+  intros bv k V n xt user cn HK HF. apply world_refines_add_lemma.
   - exact lib_refines_relaxed.
-  - apply custom_refines_itself_lemma. assumption.
+  - exact HF.
+  - reflexivity.
+  - apply custom_refines_itself_lemma. exact HK.
 Qed.
 
 (* no built-in class id has the form of a custom class id, so the freshness premise always holds *)
